@@ -11,6 +11,8 @@ R20.2 recovery gating: the token-stream mutators of recovery (enter_recovery_mod
 R20.3 depth pairing: production_depth is incremented (push_production) and decremented (E arm of parse_into) under
       guards on Production.is_push_production of equal polarity.
 R20.4 exceeding max_parsing_depth yields Err(MaxParsingDepthExceeded) in both parsers (no panic, no truncation).
+R20.5 = all C17 rules re-evaluated: one skip predicate for every site that counts or filters parse-tree-stack entries (the
+      trim option decides whether skip tokens are on that stack at all).
 """
 from .. import cfg
 from ..callgraph import CallGraph
@@ -252,3 +254,8 @@ def check(ctx):
         ctx.check(any(e in reach for e in errs) and cmp_ok, "R20.4", "%s|depth-limit-yields-error" % label,
                   "exceeding the depth limit constructs MaxParsingDepthExceeded under a comparison and returns it as Err",
                   "the depth limit does not lead to Err(MaxParsingDepthExceeded) in %s" % short(fn), where(b, line))
+    # ---------------------------------------------------------------- R20.5 = C17's rules (added after seed C20-b)
+    # trimmed and untrimmed parses differ only in which skip tokens reach the tree stack; every site that counts or filters
+    # stack entries must use the same (effective) skip predicate, otherwise the option changes the arguments of the actions
+    from . import c17
+    c17.check(ctx)
